@@ -320,6 +320,41 @@ def retention_history_indexed():
     return n, fails
 
 
+def retention_one_big_block():
+    """ONE block that pushes hundreds of kilobytes through a 4 kB table: 300 plain literals with incremental indexing of
+    ~1.5 kB each (every insertion evicts the entries before it), measured straight after `decode` returned -- and after
+    the same kind of block was refused at its very end. What the block evicted must be gone when `decode` is over, not
+    when the next block arrives."""
+    fails = []
+    n = 0
+    for kind in ('bytes', 'bytearray', 'mv-bytes'):
+        for tail, what in ((b'', 'returned'), (b'\xff\xff\xff\xff\x7f', 'was refused for a bad index at its end')):
+            d = hpack.Decoder(1 << 30)
+            base = deep_size(d)
+            parts = []
+            for j in range(300):
+                name = b'k-%s-%04d' % (kind.encode(), j)
+                val = (b'%05d:' % j) * 250
+                parts.append(b'\x40' + int_octets(len(name), 7) + name + int_octets(len(val), 7) + val)
+            obj, owner, mut = wrap(kind, b''.join(parts) + tail)
+            try:
+                d.decode(obj, raw=True)
+            except HPACKDecodingError:
+                pass
+            n += 1
+            del obj, owner, mut, parts
+            gc.collect()
+            held = deep_size(d) - base
+            ents = list(getattr(d.header_table, 'dynamic_entries', []))
+            bound = d.header_table_size + 200 * (len(ents) + 1) + 4096
+            if held > bound:
+                fails.append({'history': -3, 'step': n, 'sig': 'retained-over-table',
+                              'text': 'straight after one %s block of 300 indexed 1.5 kB literals %s the decoder retains %d octets beyond a fresh one; table size %d with %d entries allows about %d' % (
+                                  kind, what, held, d.header_table_size, len(ents), bound)})
+                return n, fails
+    return n, fails
+
+
 def main():
     seed, nh = int(sys.argv[1]), int(sys.argv[2])
     out = {'evaluations': 0, 'failures': [], 'kinds': {}}
@@ -356,6 +391,9 @@ def main():
     out['evaluations'] += n
     out['failures'] += f
     n, f = retention_history_indexed()
+    out['evaluations'] += n
+    out['failures'] += f
+    n, f = retention_one_big_block()
     out['evaluations'] += n
     out['failures'] += f
     rnd = random.Random(seed)
